@@ -362,6 +362,58 @@ def scenario(spec):
             got = ws["bob"].result.get("got") or []
             return [("empty_reports_emptiness_no_stale_no_duplicate", [g for g in got if g is not None] == ["x"], {"got": got})]
         return [("alice", alice), ("bob", bob)], check
+    if kind == "nonblocking_silent":
+        # the logging-free variants of send / recv, and the structured receive, with block=False
+        def alice(w):
+            s = ThreadSocket("alice", "bob")
+            s.send_silent("x")
+            s.send_structured(StructuredMessage("h", 5))
+
+        def bob(w):
+            s = ThreadSocket("bob", "alice")
+            got = []
+            for _ in range(2):
+                if "x" in got:
+                    break           # the next message is the structured one: it must not be taken with a string receive
+                try:
+                    got.append(s.recv_silent(block=False))
+                except RuntimeError:
+                    got.append(None)
+            if "x" not in got:
+                got.append(s.recv_silent())
+            st = None
+            try:
+                st = s.recv_structured(block=False)
+            except RuntimeError:
+                st = s.recv_structured()
+            got.append((st.header, st.payload))
+            w.result["got"] = got
+
+        def check(ws):
+            got = ws["bob"].result.get("got") or []
+            return [("empty_reports_emptiness_no_stale_no_duplicate", [g for g in got if g is not None] == ["x", ("h", 5)], {"got": got})]
+        return [("alice", alice), ("bob", bob)], check
+    if kind == "nonblocking_empty":
+        # nobody sends while bob asks: every non-blocking receive variant must report emptiness (not block, not return anything)
+        def alice(w):
+            s = ThreadSocket("alice", "bob")
+            w.join("bob")
+            w.result["keepalive"] = s is not None
+
+        def bob(w):
+            s = ThreadSocket("bob", "alice")
+            out = []
+            for fn in (s.recv, s.recv_silent, s.recv_structured):
+                try:
+                    out.append(("returned", repr(fn(block=False))))
+                except RuntimeError:
+                    out.append("empty")
+            w.result["got"] = out
+
+        def check(ws):
+            got = ws["bob"].result.get("got")
+            return [("empty_channel_reports_emptiness", got == ["empty", "empty", "empty"], {"got": got})]
+        return [("alice", alice), ("bob", bob)], check
     if kind == "callback":
         def alice(w):
             s = ThreadSocket("alice", "bob")
@@ -533,7 +585,7 @@ def main(tier, seed):
                  "with a bounded number of pre-emptions; obligations are concrete per schedule. NO SMT query is involved (stated): thread "
                  "schedules cannot be made solver variables of the code")
     specs = []
-    scen = ["one_way", "two_way", "nonblocking", "callback", "two_ids", "structured", "close_early", "reconnect_callback", "broadcast3"]
+    scen = ["one_way", "two_way", "nonblocking", "nonblocking_silent", "nonblocking_empty", "callback", "two_ids", "structured", "close_early", "reconnect_callback", "broadcast3"]
     two = [x for x in scen if x != "broadcast3"]
     th = tier == "thorough"
     pc, pl = (3, 2) if th else (2, 1)
